@@ -437,6 +437,18 @@ def jwe_cases(ctx, rng, cfg: Cfg, alg, enc):
                     judge(ctx, {**d, "op": "jwe.decrypt_json[general]"}, bf.info["protected"], "jwe", "consume", cfg, alg, o)
                 else:
                     keep = {k: v for k, v in extra.items() if k not in moved}
+                    if pos == "recipient" and moved and not skj and rng.random() < 0.35 and not any(cfg.custom.get(n, (None, False))[1] for n in moved):
+                        # several recipients, the caller content with any one of them (verify_all_recipients=False): the header of the OTHER
+                        # recipient is still a header of this JWE
+                        ok2 = gen.new_oct(128)
+                        b2 = g.make("general", enc, [(alg, {**rkj, "kid": "mine"}, None), ("A128KW", {**ok2, "kid": "theirs"}, None)], pt, extra_protected=keep, params_in="recipient")
+                        t2 = copy.deepcopy(b2.token)
+                        t2["recipients"][1]["header"] = {**(t2["recipients"][1].get("header") or {}), **copy.deepcopy(moved)}
+                        merged2 = {**b2.info["protected"], **t2["recipients"][1]["header"]}
+                        reg_any = make_registry("jwe", cfg, sorted({alg, enc, "A128KW", "DEF"}))
+                        reg_any.verify_all_recipients = False
+                        o = call(j.jwe.decrypt_json, t2, jpriv, registry=reg_any)
+                        judge(ctx, {**d, "op": "jwe.decrypt_json[general,any-recipient,other recipient's header]", "pos": "recipient"}, merged2, "jwe", "consume", cfg, "A128KW", o)
                     b = g.make("flattened", enc, [(alg, rkj, skj)], pt, extra_protected=keep, params_in="recipient",
                                unprotected=copy.deepcopy(moved) if pos == "unprotected" else None)
                     t = copy.deepcopy(b.token)
